@@ -17,9 +17,15 @@ func genC03() *rapid.Generator[Case] {
 		c := Case{Cfg: genConfig([]int{0, 1, 2}, []int64{200, 333, 1024, 8192}).Draw(t, "cfg")}
 		bucket := "b"
 		keys := genKeys([]byte{'a', 'b', 'c'}, 3, 8, 3).Draw(t, "keys")
+		maxOps := 4
+		if rapid.IntRange(0, 9).Draw(t, "widekeys") == 4 {
+			// more than 7 keys: the bucket's B+ tree has several leaves, pages cross leaf boundaries
+			keys = genKeys([]byte{'a', 'b', 'c'}, 9, 18, 3).Draw(t, "keys")
+			maxOps = 8
+		}
 		n := rapid.IntRange(1, 14).Draw(t, "nsteps")
 		for i := 0; i < n; i++ {
-			nops := rapid.IntRange(1, 4).Draw(t, "nops")
+			nops := rapid.IntRange(1, maxOps).Draw(t, "nops")
 			st := Step{K: "tx"}
 			for j := 0; j < nops; j++ {
 				st.Ops = append(st.Ops, genKVWrite([]string{bucket}, keys, false).Draw(t, "op"))
